@@ -372,7 +372,9 @@ func (s *state) evalPrint(node *ast.PrintNode) {
 
 	var resultStr = result.String()
 	if escapeHtml {
-		htmlEscapeString(s.wr, resultStr)
+		if err := htmlEscapeString(s.wr, resultStr); err != nil {
+			s.errorf("%s", err)
+		}
 	} else {
 		if _, err := io.WriteString(s.wr, resultStr); err != nil {
 			s.errorf("%s", err)
@@ -697,7 +699,7 @@ var (
 
 // htmlEscapeString is a modified veresion of the stdlib HTMLEscape routine
 // escapes a string without making copies.
-func htmlEscapeString(w io.Writer, str string) {
+func htmlEscapeString(w io.Writer, str string) error {
 	last := 0
 	for i := 0; i < len(str); i++ {
 		var html []byte
@@ -715,9 +717,14 @@ func htmlEscapeString(w io.Writer, str string) {
 		default:
 			continue
 		}
-		io.WriteString(w, str[last:i])
-		w.Write(html)
+		if _, err := io.WriteString(w, str[last:i]); err != nil {
+			return err
+		}
+		if _, err := w.Write(html); err != nil {
+			return err
+		}
 		last = i + 1
 	}
-	io.WriteString(w, str[last:])
+	_, err := io.WriteString(w, str[last:])
+	return err
 }
